@@ -62,6 +62,7 @@ fn run_job(job: &Value) -> Value {
         fiemap_round_eof: gb(k, "fiemap_round_eof"),
         fiemap_past_eof: gu(k, "fiemap_past_eof").unwrap_or(0),
         fiemap_flagbits: gu(k, "fiemap_flagbits").unwrap_or(0),
+        fiemap_phys_packed: gb(k, "fiemap_phys_packed"),
         getdents: gs(k, "getdents").unwrap_or("perm").to_string(),
         wake_any: gb(k, "wake_any"),
         time_jump_p: k.get("time_jump_p").and_then(|v| v.as_f64()).unwrap_or(0.0),
